@@ -497,6 +497,23 @@ def search(payload):
         for sh in shapes_exact(leaves_o, k, memo_o):
             if has_other(sh) and len(fails) < 5:
                 check({"names": ["p", "q"], "initial_v": [False, True], "trees": [sh], "schedule": ["*0"]})
+    # 1c. beyond the small bounds: 9-12 distinct names, names with digit runs / prefixes / upper case, chains of 40-100 operands
+    def chain(op, idxs):
+        t = ["var", idxs[0]]
+        for i in idxs[1:]:
+            t = [op, t, ["var", i]]
+        return t
+    wide = ["va", "vb", "vc", "vd", "ve", "vf", "vg", "vh", "vi", "vj", "vk", "vl"]
+    for k in (9, 11, 12):
+        for sh in (["xor", ["and", ["var", 0], ["var", 1]], chain("xor", list(range(2, k)))], chain("or", list(range(k))), ["and", ["var", k - 1], ["not", ["var", 0]]]):
+            check({"names": wide[:k], "initial_v": [False] * k, "trees": [sh], "schedule": ["*0"]})
+    for names in (["x2", "x10"], ["x10", "x2", "x1"], ["a", "ab", "abc", "b"], ["B", "a", "A", "b"], ["p1", "p02", "p002"], ["x9", "x10", "x11", "x100"]):
+        k = len(names)
+        check({"names": names, "initial_v": [True] * k, "trees": [["and", ["var", 0], ["not", ["var", k - 1]]]], "schedule": ["*0"]})
+        check({"names": names, "initial_v": [False] * k, "trees": [chain("xor", list(range(k)))], "schedule": ["*0"]})
+    for length in (40, 80, 100):
+        for op in ("xor", "and", "or"):
+            check({"names": ["p", "q", "r"], "initial_v": [False, True, False], "trees": [chain(op, [i % 3 for i in range(length)])], "schedule": ["*0"]})
     # 2. histories: other predicates over the same objects are tabulated (fully, partly) first; interleavings; writes
     for _ in range(4000 if not deep else 30000):
         nobj = rng.randrange(1, 8)
